@@ -1,6 +1,7 @@
 package rules
 
 import (
+	"go/types"
 	"fmt"
 	"sort"
 	"strings"
@@ -80,18 +81,25 @@ func ruleR07a(c *Check) {
 			mname := c.P.FuncName(m)
 			src, dst := rn.Common().Args[0], rn.Common().Args[1]
 			okDst := fwd.Has(dst)
-			// source: (*os.File).Name() of a CreateTemp result
+			// source: (*os.File).Name() of a CreateTemp result (in this method, or returned by a staging helper)
 			var tmp ssa.Value
 			var ct ssa.CallInstruction
-			for _, o := range engine.Origins(src) {
-				if call, _ := engine.CallOf(o); call != nil && engine.CalleeName(call) == "(*os.File).Name" {
-					for _, fo := range engine.Origins(call.Common().Args[0]) {
-						if c2, idx := engine.CallOf(fo); c2 != nil && engine.CalleeName(c2) == "os.CreateTemp" && idx == 0 {
-							tmp = call.Common().Args[0]
-							ct = c2
+			var ctCtx []*ssa.Call
+			for _, do := range engine.OriginsDeep(src) {
+				if do.V == nil {
+					continue
+				}
+				engine.WithCtx(do.Ctx, func() {
+					if call, _ := engine.CallOf(do.V); call != nil && engine.CalleeName(call) == "(*os.File).Name" {
+						for _, fo := range engine.Origins(call.Common().Args[0]) {
+							if c2, idx := engine.CallOf(fo); c2 != nil && engine.CalleeName(c2) == "os.CreateTemp" && idx == 0 {
+								tmp = call.Common().Args[0]
+								ct = c2
+								ctCtx = do.Ctx
+							}
 						}
 					}
-				}
+				})
 			}
 			if tmp == nil {
 				c.Bad("R07a", "publish-by-rename/"+mname, "the rename source is not the name of a file obtained from os.CreateTemp: concurrent writers of the same key would share one temp file and publish each other's partial content", c.P.InstrPos(rn))
@@ -99,29 +107,37 @@ func ruleR07a(c *Check) {
 			}
 			// same directory
 			sameDir := false
-			for _, o := range engine.Origins(ct.Common().Args[0]) {
-				if call, _ := engine.CallOf(o); call != nil && engine.CalleeName(call) == "path/filepath.Dir" {
-					if sameVar(call.Common().Args[0], dst) || engine.ExprKey(call.Common().Args[0]) == engine.ExprKey(dst) {
-						sameDir = true
+			engine.WithCtx(ctCtx, func() {
+				for _, o := range engine.Origins(ct.Common().Args[0]) {
+					if call, _ := engine.CallOf(o); call != nil && engine.CalleeName(call) == "path/filepath.Dir" {
+						if sameVar(call.Common().Args[0], dst) || engine.ExprKey(call.Common().Args[0]) == engine.ExprKey(dst) {
+							sameDir = true
+						}
 					}
 				}
-			}
-			// copy and close succeeded
+			})
+			// copy and close succeeded (the calls themselves, or a staging helper that forwards their errors)
 			why := ""
-			var copies, closes []ssa.CallInstruction
-			for _, s := range engine.SitesIn(m) {
+			isCopy := func(s ssa.CallInstruction) bool {
 				switch engine.CalleeName(s) {
 				case "io.Copy", "io.CopyBuffer", "io.CopyN":
-					if sameFile(s.Common().Args[0], tmp) {
-						copies = append(copies, s)
-					}
-				case "(*os.File).Close":
-					if _, isCall := s.(*ssa.Call); isCall && sameFile(s.Common().Args[0], tmp) {
-						closes = append(closes, s)
-					}
+					return sameFile(s.Common().Args[0], tmp)
 				}
+				return false
 			}
-			if len(copies) == 0 {
+			isClose := func(s ssa.CallInstruction) bool {
+				if engine.CalleeName(s) != "(*os.File).Close" {
+					return false
+				}
+				_, isCall := s.(*ssa.Call)
+				return isCall && sameFile(s.Common().Args[0], tmp)
+			}
+			copies, leaks1 := liftedSites(c, m, isCopy, 0)
+			closes, leaks2 := liftedSites(c, m, isClose, 0)
+			for _, l := range append(leaks1, leaks2...) {
+				why = "a staging helper loses an error: " + l
+			}
+			if len(copies) == 0 && why == "" {
 				why = "no content copy into the temp file"
 			}
 			for _, cp := range copies {
@@ -156,15 +172,43 @@ func ruleR07a(c *Check) {
 				content = p
 			}
 		}
-		for _, cp := range callsNamed(m, "io.Copy") {
-			src := cp.Common().Args[1]
-			direct := false
-			for _, o := range engine.Origins(src) {
-				if o == content {
-					direct = true
+		region := regionOf(c, m)
+		for rf := range region {
+			for _, cp := range callsNamed(rf, "io.Copy") {
+				src := cp.Common().Args[1]
+				direct := false
+				for _, o := range engine.Origins(src) {
+					if o == content {
+						direct = true
+					}
+					// in a staging helper: its reader parameter, given the content parameter at every call
+					if prm, isP := o.(*ssa.Parameter); isP && rf != m {
+						okAll := true
+						n := 0
+						for _, cs := range c.G.CallersOf(rf) {
+							for k, fp := range rf.Params {
+								if fp != prm || k >= len(cs.Common().Args) {
+									continue
+								}
+								n++
+								fromContent := false
+								for _, ao := range engine.Origins(cs.Common().Args[k]) {
+									if ao == content {
+										fromContent = true
+									}
+								}
+								if !fromContent || cs.Parent() != m {
+									okAll = false
+								}
+							}
+						}
+						if okAll && n > 0 {
+							direct = true
+						}
+					}
 				}
+				c.Require(direct, "R07a", "copy-source-is-content/"+c.P.FuncName(m), "the bytes copied into the temp file are read directly from the content parameter", "the content is copied through an intermediate reader: a wrapper that ends the stream early (e.g. on cancellation) would publish a truncated blob under the full digest", c.P.InstrPos(cp))
 			}
-			c.Require(direct, "R07a", "copy-source-is-content/"+c.P.FuncName(m), "the bytes copied into the temp file are read directly from the content parameter", "the content is copied through an intermediate reader: a wrapper that ends the stream early (e.g. on cancellation) would publish a truncated blob under the full digest", c.P.InstrPos(cp))
 		}
 	}
 }
@@ -217,9 +261,41 @@ func ruleR07b(c *Check) {
 		return true
 	})
 	mut := map[string][]int{"os.Create": {0}, "os.OpenFile": {0}, "os.WriteFile": {0}, "os.Rename": {0, 1}, "os.CreateTemp": {0}, "os.MkdirAll": {0}, "os.Mkdir": {0}, "os.Remove": {0}, "os.RemoveAll": {0}, "os.Link": {1}, "os.Symlink": {1}}
+	fsHelpers := map[*ssa.Function]bool{}
+	for _, m := range fsCacheMethods(c) {
+		region := regionOf(c, m)
+		if len(regionEntrants(c, region, m)) > 0 {
+			continue
+		}
+		for f := range region {
+			fsHelpers[f] = true
+		}
+	}
+	// a helper shared by several fs methods: all its callers are fs-backend functions
+	for pass := 0; pass < 2; pass++ {
+		for _, f := range c.P.Funcs {
+			if !engine.InPackage(f, "caching/backends") || f.Signature.Recv() != nil || fsHelpers[f] {
+				continue
+			}
+			callers := c.G.CallerFuncs(f)
+			okAll := len(callers) > 0
+			for _, cf := range callers {
+				top := engine.TopFunc(cf)
+				isFs := top.Signature.Recv() != nil && engine.TypeKey(top.Signature.Recv().Type()) == "caching/backends.FileSystemCache"
+				if !isFs && !fsHelpers[top] {
+					okAll = false
+				}
+			}
+			if okAll {
+				fsHelpers[f] = true
+			}
+		}
+	}
 	allowed := func(fn *ssa.Function) (bool, string) {
 		top := engine.TopFunc(fn)
 		switch {
+		case fsHelpers[top]:
+			return true, "fs backend (helper called only by its methods)"
 		case engine.InPackage(top, "caching/backends") && (top.Signature.Recv() != nil && engine.TypeKey(top.Signature.Recv().Type()) == "caching/backends.FileSystemCache" || top.Name() == "NewFileSystemCache"):
 			return true, "fs backend"
 		case engine.InPackage(top, "locking"):
@@ -405,27 +481,49 @@ func recordPaired(c *Check, digestRead, pathRead ssa.Value, hashers map[*ssa.Fun
 // R07e: memo soundness
 func ruleR07e(c *Check) {
 	c.Rule("R07e", "the CAS 'digest exists' memo is written only after backend.Set returned nil or backend.Exists answered (true, nil)", 2)
-	memo := fk("caching.Cas", "keyExistsCache")
-	n := 0
-	for _, s := range c.G.Sites {
-		name := engine.CalleeName(s)
-		if !(name == "(*sync.Map).Store" || name == "(*sync.Map).LoadOrStore" || name == "(*sync.Map).Swap" || name == "(*sync.Map).CompareAndSwap") {
-			continue
+	// the memo: the sync.Map field(s) of caching.Cas (located by type, not by name)
+	memos := map[engine.FieldKey]bool{}
+	if t := c.P.Type("caching", "Cas"); t != nil {
+		if st, ok := t.Underlying().(*types.Struct); ok {
+			for i := 0; i < st.NumFields(); i++ {
+				if st.Field(i).Type().String() == "sync.Map" {
+					memos[fk("caching.Cas", st.Field(i).Name())] = true
+				}
+			}
 		}
-		fa, ok := s.Common().Args[0].(*ssa.FieldAddr)
-		if !ok || engine.FieldKeyOf(fa.X.Type(), fa.Field) != memo {
-			continue
+	}
+	isBackendCall := func(b ssa.CallInstruction) bool {
+		cc := b.Common()
+		return cc.IsInvoke() && engine.TypeKey(cc.Value.Type()) == "caching/backends.CacheBackend"
+	}
+	n := 0
+	var check func(s ssa.CallInstruction, depth int)
+	check = func(s ssa.CallInstruction, depth int) {
+		fn := s.Parent()
+		hasBackend := false
+		for _, b := range engine.SitesIn(fn) {
+			if isBackendCall(b) {
+				hasBackend = true
+			}
+		}
+		if !hasBackend && depth < 2 {
+			// a helper that only records the digest: judge the sites that call it
+			callers := c.G.CallersOf(fn)
+			if len(callers) > 0 {
+				for _, cs := range callers {
+					check(cs, depth+1)
+				}
+				return
+			}
 		}
 		n++
-		fn := s.Parent()
 		key := "memo-after-success/" + c.P.FuncName(fn)
 		okAny := false
 		for _, b := range engine.SitesIn(fn) {
-			cc := b.Common()
-			if !cc.IsInvoke() || engine.TypeKey(cc.Value.Type()) != "caching/backends.CacheBackend" {
+			if !isBackendCall(b) {
 				continue
 			}
-			switch cc.Method.Name() {
+			switch b.Common().Method.Name() {
 			case "Set":
 				if w := onlyAfterSuccess(fn, b, s); w == "" {
 					okAny = true
@@ -441,6 +539,17 @@ func ruleR07e(c *Check) {
 			}
 		}
 		c.Require(okAny, "R07e", key, "the memo is set only after a successful Set / a positive Exists", "a digest is remembered as present before (or without) the backend write having succeeded: a failed or still-running upload makes every later write of that digest a silent no-op, so a result can reference a blob that was never stored", c.P.InstrPos(s))
+	}
+	for _, s := range c.G.Sites {
+		name := engine.CalleeName(s)
+		if !(name == "(*sync.Map).Store" || name == "(*sync.Map).LoadOrStore" || name == "(*sync.Map).Swap" || name == "(*sync.Map).CompareAndSwap") {
+			continue
+		}
+		fa, ok := s.Common().Args[0].(*ssa.FieldAddr)
+		if !ok || !memos[engine.FieldKeyOf(fa.X.Type(), fa.Field)] {
+			continue
+		}
+		check(s, 0)
 	}
 	if n == 0 {
 		c.Unknown("R07e", "memo-after-success", "no writes to the exists-memo found", "-")
